@@ -89,7 +89,7 @@ def run(tier, replay):
     lib.build("auth")
     mc = lib.tlc("KAuthPwQualityMC", cfg="KAuthPwQualityMC", pid=PID, workers=1, timeout=600)
     lib.tlc_must_pass(mc, "quality gate transcription vs property")
-    for g in ("ReachKnown", "ReachUnitGap"):
+    for g in ("ReachKnown", "ReachUnitGap"):  # ReachKnown: the direct path refuses below the policy minimum
         r = lib.tlc("KAuthPwQualityMC", cfg=f"KAuthPwQualityMC{g}", pid=PID, workers=1, timeout=300)
         if not r["violated"]:
             lib.tool_error(f"vacuity guard {g} not reachable (log {r['log']})")
